@@ -13,7 +13,7 @@ from dslref import parse, Interp
 
 def main(seed, ncases, driver, out):
     rnd = random.Random(seed); failures = []; dist = {}; samples = []; evals = 0; distinct = 0
-    names = ["prog_basic", "prog_nested", "prog_flags", "prog_lower", "prog_herm3", "prog_primes", "prog_unitary"]
+    names = ["prog_basic", "prog_nested", "prog_flags", "prog_lower", "prog_herm3", "prog_primes", "prog_unitary", "prog_twoargs"]
     for c in range(ncases):
         if skip(c): continue
         rnd = case_rnd(seed, c)
@@ -49,7 +49,11 @@ def main(seed, ncases, driver, out):
         def offdiag_real(x, index):
             x = x[index] if isinstance(x, BlockSeries) else x
             return zero if x is zero else x * 0.5
-        scope = {"f": wrap_real(2, 1), "g": wrap_real(1, -1), "flag_a": flag_a, "flags_b": flags_b, "diag": diag_real,
+        def h2_real(x, y, index):      # a scope function of two arguments, not symmetric in them: 3 x - 2 y (absent values count as nothing)
+            x = x[index] if isinstance(x, BlockSeries) else x; y = y[index] if isinstance(y, BlockSeries) else y
+            if x is zero and y is zero: return zero
+            return (0 if x is zero else 3 * x) - (0 if y is zero else 2 * y)
+        scope = {"f": wrap_real(2, 1), "g": wrap_real(1, -1), "h2": h2_real, "flag_a": flag_a, "flags_b": flags_b, "diag": diag_real,
                  "offdiag": offdiag_real if use_offdiag else None, "use_linear_operator": np.zeros((N, N), dtype=bool)}
         desc = {"program": pname, "sizes": sizes, "flag_a": flag_a, "flags_b": flags_b, "offdiag": use_offdiag, "complex": cplx,
                 "absent": sorted([list(k) for k in itertools.product(range(N), range(N), range(3)) if k not in data])}
@@ -59,7 +63,11 @@ def main(seed, ncases, driver, out):
         I = None
         def rf(c1, c2):
             return lambda a, idx: gval(I.get(a[1], idx) if isinstance(a, tuple) else a, idx, c1, c2)
-        rscope = {"f": rf(2, 1), "g": rf(1, -1), "flag_a": flag_a, "flags_b": flags_b, "diag": lambda v, idx: v}
+        def h2_ref(a, b, idx):
+            a = I.get(a[1], idx) if isinstance(a, tuple) else a; b = I.get(b[1], idx) if isinstance(b, tuple) else b
+            if a is None and b is None: return None
+            return (0 if a is None else 3 * a) - (0 if b is None else 2 * b)
+        rscope = {"f": rf(2, 1), "g": rf(1, -1), "h2": h2_ref, "flag_a": flag_a, "flags_b": flags_b, "diag": lambda v, idx: v}
         if use_offdiag: rscope["offdiag"] = lambda v, idx: None if v is None else v * 0.5
         # the element product is a parameter of the compiler (`operator=`): every product of every declared Cauchy product, of any number of factors, goes through it
         twist = rnd.random() < 0.4 and pname != "prog_unitary"      # (the identity sentinel of a factor is not passed through the operator: no twist there)
